@@ -7,6 +7,7 @@
   yields exactly the view.  Behind Props/C16Bufio.
 -/
 import Saltpack.Model.Bufio
+import Saltpack.Proofs.ClassifyAux
 
 namespace Saltpack.Proofs.BufioP
 open Saltpack Saltpack.Stream Saltpack.Bufio
@@ -394,5 +395,199 @@ theorem binary_full (s : BState) (hi : Inv s) (hfull : s.size ≤ (view s).1.len
       rw [hv] at hfull
       simp only at hfull
       omega
+
+
+theorem binarySlice_ne_eof (b : Bytes) : Classify.binarySlice b ≠ .eof := by
+  unfold Classify.binarySlice
+  repeat' (first | split | dsimp only)
+  all_goals intro h
+  all_goals first | (cases h; done)
+
+theorem armoredPrefix_ne_eof (pref : Bytes) : Classify.armoredPrefix pref ≠ .eof := by
+  rw [Saltpack.Proofs.ClsAux.armoredPrefix_norm]
+  unfold Saltpack.Proofs.ClsAux.classifyNorm
+  dsimp only
+  split
+  · repeat' split
+    all_goals first | (intro h; cases h; done)
+  · split
+    · intro h; cases h
+    · split
+      · intro h; cases h
+      next hb => exact absurd hb (binarySlice_ne_eof _)
+      · intro h; cases h
+      · intro h; cases h
+      · split
+        · intro h; cases h
+        · intro h; cases h
+
+/-- the `bin` continuation of `ClassifyStream` -/
+def binCont (s1 : BState) : MVerdict (Bool × Bytes × Int × Version) × BState :=
+  let (b, s2) := isSaltpackBinary s1
+  match b with
+  | .v (.ok (t, v)) => (.v (.ok (false, [], t, v)), s2)
+  | .v .short => (.v .short, s2)
+  | .v .eof => (.v .eof, s2)
+  | .v .notSaltpack => (.v .notSaltpack, s2)
+  | .v (.unmodelled w) => (.v (.unmodelled w), s2)
+  | .fail e => (.fail e, s2)
+
+theorem classifyStreamM_eq (s : BState) : classifyStreamM s =
+    match (isSaltpackArmored s).1 with
+    | .v (.ok (b, t, v)) => (.v (.ok (true, b, t, v)), (isSaltpackArmored s).2)
+    | .v .short => (.v .short, (isSaltpackArmored s).2)
+    | .v (.unmodelled w) => (.v (.unmodelled w), (isSaltpackArmored s).2)
+    | .fail e => (.fail e, (isSaltpackArmored s).2)
+    | .v .notSaltpack => binCont (isSaltpackArmored s).2
+    | .v .eof => binCont (isSaltpackArmored s).2 := by
+  unfold classifyStreamM binCont
+  generalize isSaltpackArmored s = r
+  obtain ⟨a, s1⟩ := r
+  rfl
+
+/-- **machine = pure function, nothing consumed** — when the reader can deliver
+    at least a full buffer (`size` bytes): `ClassifyStream` answers what the pure
+    `classifyStream size` answers on the bytes to come, and the view (all bytes
+    to come, and their final condition) is unchanged -/
+theorem classify_full (s : BState) (hi : Inv s) (hsz : 0 < s.size) (hfull : s.size ≤ (view s).1.length) :
+    Inv (classifyStreamM s).2 ∧ view (classifyStreamM s).2 = view s ∧
+    (classifyStreamM s).1 = .v (classifyStream s.size (view s).1) := by
+  rw [classifyStreamM_eq]
+  -- the armored peek
+  have harm : ∃ s1, isSaltpackArmored s = (.v (armoredPrefix ((view s).1.take s.size)), s1) ∧ Inv s1 ∧
+      s1.size = s.size ∧ view s1 = view s := by
+    unfold isSaltpackArmored
+    generalize hpk : peek s.size s = res
+    obtain ⟨out, e, s1⟩ := res
+    obtain ⟨hi1, hs1, hnone, hfullc, hcond⟩ := peek_view s.size s hi out e s1 hpk
+    simp only
+    cases e with
+    | none =>
+      obtain ⟨ho, hl, hv, _⟩ := hnone rfl
+      have hne : out.isEmpty = false := by
+        cases out with
+        | nil => simp at hl; omega
+        | cons _ _ => rfl
+      simp only [hne, Bool.false_eq_true, if_false]
+      exact ⟨s1, by rw [ho], hi1, hs1, hv⟩
+    | some x =>
+      exfalso
+      cases x with
+      | bufferFull => have := (hfullc rfl).1; omega
+      | src y =>
+        obtain ⟨hv, _, _, hlt, _⟩ := hcond _ rfl (by simp)
+        rw [hv] at hfull; simp only at hfull; omega
+      | noProgress =>
+        obtain ⟨hv, _, _, hlt, _⟩ := hcond _ rfl (by simp)
+        rw [hv] at hfull; simp only at hfull; omega
+  obtain ⟨s1, ha, hi1, hs1, hv1⟩ := harm
+  rw [ha]
+  simp only
+  have hpk : ((view s).1.take s.size).isEmpty = false := by
+    have : 0 < ((view s).1.take s.size).length := by rw [List.length_take]; omega
+    cases hh : (view s).1.take s.size with
+    | nil => rw [hh] at this; simp at this
+    | cons _ _ => rfl
+  -- the binary continuation, if reached
+  have hbin : Inv (binCont s1).2 ∧ view (binCont s1).2 = view s ∧
+      (binCont s1).1 = .v (if s.size < minLen then .short else
+        match binarySlice ((view s).1.take minLen) with
+        | .ok (t, v) => .ok (false, [], t, v)
+        | .short => .short
+        | .eof => .eof
+        | .notSaltpack => .notSaltpack
+        | .unmodelled w => .unmodelled w) := by
+    unfold binCont
+    generalize hb : isSaltpackBinary s1 = rb
+    obtain ⟨b, s2⟩ := rb
+    obtain ⟨hi2, _, hv2, hbv⟩ := binary_full s1 hi1 (by rw [hs1, hv1]; exact hfull) b s2 hb
+    rw [hs1, hv1] at hbv
+    subst hbv
+    by_cases hlt : s.size < minLen
+    · simp only [hlt, if_true]
+      exact ⟨hi2, by rw [hv2, hv1], trivial⟩
+    · simp only [hlt, if_false]
+      refine ⟨?_, ?_, ?_⟩
+      · cases binarySlice ((view s).1.take minLen) <;> first | exact hi2 | (rename_i x; cases x; exact hi2)
+      · cases binarySlice ((view s).1.take minLen) <;> first | (rw [hv2, hv1]) | (rename_i x; cases x; rw [hv2, hv1])
+      · cases binarySlice ((view s).1.take minLen) <;> first | rfl | (rename_i x; cases x; rfl)
+  have hlen : ¬ (view s).1.length < minLen ∨ s.size < minLen := by
+    by_cases h : s.size < minLen
+    · exact Or.inr h
+    · exact Or.inl (by omega)
+  unfold classifyStream
+  simp only [hpk, Bool.false_eq_true, if_false]
+  cases harmv : armoredPrefix ((view s).1.take s.size) with
+  | ok x => obtain ⟨b, t, v⟩ := x; exact ⟨hi1, hv1, rfl⟩
+  | short => exact ⟨hi1, hv1, rfl⟩
+  | unmodelled w => exact ⟨hi1, hv1, rfl⟩
+  | eof => exact absurd harmv (armoredPrefix_ne_eof _)
+  | notSaltpack =>
+    refine ⟨hbin.1, hbin.2.1, ?_⟩
+    rw [hbin.2.2]
+    by_cases h : s.size < minLen
+    · simp [h]
+    · have : ¬ (view s).1.length < minLen := by omega
+      simp only [h, this, if_false]
+      cases binarySlice ((view s).1.take minLen) <;> first | rfl | (rename_i x; cases x; rfl)
+
+/-- **a source error within the peeked range is reported, never swallowed into
+    a verdict**: if the stream ends with an error `x` before a full buffer could
+    be peeked, `ClassifyStream` returns that error -/
+theorem classify_reports_error (s : BState) (hi : Inv s) (all : Bytes) (x : Err)
+    (hv : view s = (all, .src (.err x))) (hshort : all.length < s.size) :
+    (classifyStreamM s).1 = .fail (.src (.err x)) := by
+  rw [classifyStreamM_eq]
+  have harm : (isSaltpackArmored s).1 = .fail (.src (.err x)) := by
+    unfold isSaltpackArmored
+    generalize hpk : peek s.size s = res
+    obtain ⟨out, e, s1⟩ := res
+    obtain ⟨hi1, hs1, hnone, hfullc, hcond⟩ := peek_view s.size s hi out e s1 hpk
+    simp only
+    cases e with
+    | none =>
+      exfalso
+      obtain ⟨ho, hl, _, _⟩ := hnone rfl
+      rw [hv] at ho
+      have := congrArg List.length ho
+      rw [List.length_take] at this
+      simp only at this
+      omega
+    | some y =>
+      cases y with
+      | bufferFull => exfalso; have := (hfullc rfl).1; omega
+      | src z =>
+        obtain ⟨hv', _, _, _, _⟩ := hcond _ rfl (by simp)
+        rw [hv] at hv'
+        simp only [Prod.mk.injEq, BErr.src.injEq] at hv'
+        obtain ⟨_, rfl⟩ := hv'
+        rfl
+      | noProgress =>
+        exfalso
+        obtain ⟨hv', _, _, _, _⟩ := hcond _ rfl (by simp)
+        rw [hv] at hv'
+        simp at hv'
+  rw [harm]
+
+/-- **classification, then reading the stream to its end, yields exactly the
+    bytes and the final condition of the underlying source** (full-buffer case:
+    the source holds at least `size` bytes): nothing consumed, nothing duplicated,
+    for every fragmentation of the source and every read size -/
+theorem classify_then_drain (src : Source) (size cap fuel : Nat) (hp : Progress src) (hcap : 0 < cap)
+    (hfull : max size minReadBufferSize ≤ (total src).1.length) (hfuel : (total src).1.length + 1 ≤ fuel) :
+    let r := classifyStreamM (newReaderSize src size)
+    r.1 = .v (classifyStream (max size minReadBufferSize) (total src).1) ∧
+    (drain cap fuel r.2 []).1 = (total src).1 ∧
+    (drain cap fuel r.2 []).2.1 = some (.src (total src).2) := by
+  have hi := inv_new src size hp
+  have hvw := view_new src size
+  have hsz : (newReaderSize src size).size = max size minReadBufferSize := rfl
+  obtain ⟨hi1, hv1, hr⟩ := classify_full (newReaderSize src size) hi
+    (by rw [hsz]; unfold minReadBufferSize; omega) (by rw [hsz, hvw]; exact hfull)
+  rw [hvw, hsz] at hr
+  obtain ⟨a, b⟩ := drain_view cap hcap fuel (classifyStreamM (newReaderSize src size)).2 [] hi1
+    (by rw [hv1, hvw]; exact hfuel)
+  rw [hv1, hvw] at a b
+  exact ⟨hr, by simpa using a, b⟩
 
 end Saltpack.Proofs.BufioP
